@@ -340,6 +340,7 @@ TWINS = [
     ('copy-dtype-product-store', 'C01', 'super_pose.py', "        if base.isscalar(left):\n            return right.__mul__(left)\n        else:\n            return NotImplemented", "        def rotate(R, T):\n            RT = T.copy()\n            RT[:2, :] = R @ T[:2, :]\n            return RT\n        if base.isscalar(left):\n            return right.__mul__(left)\n        else:\n            return NotImplemented", 'R11c', 'rotate'),
     ('tr2delta-fastpath-no-transpose', 'C13', 'base/transforms3d.py', "        Td = trinv(T0) @ T1\n", "        if np.array_equal(T0[:3, :3], T1[:3, :3]):\n            return np.r_[T0[:3, :3] @ (T1[:3, 3] - T0[:3, 3]), 0, 0, 0]\n        Td = trinv(T0) @ T1\n", 'R16', 'tr2delta'),
     ('twist-mul-sum-arm', 'C02', 'twist.py', "            return Twist3(left.binop(right, lambda x, y: base.trlog(base.trexp(x) @ base.trexp(y), twist=True)))", "            def compose(x, y):\n                if base.iszerovec(np.cross(x[3:], y[3:])):\n                    return x + y\n                return base.trlog(base.trexp(x) @ base.trexp(y), twist=True)\n            return Twist3(left.binop(right, compose))", 'R15', 'Twist3.__mul__'),
+    ('uq-mul-columns-vec3-with-s', 'C06', 'quaternion.py', "                return np.array([base.qvmul(left._A, x) for x in right.T]).T", "                s, u = left.s, left.vec3\n                t = 2 * np.cross(u, right, axis=0)\n                return right + s * t + np.cross(u, t, axis=0)", 'R16s', 'UnitQuaternion.__mul__'),
 ]
 
 
